@@ -880,11 +880,11 @@ Proof.
   - destruct (a =? at_sign), (b =? at_sign); reflexivity.
 Qed.
 
-Theorem request_conform c fs fm rq r fm' log :
+Theorem request_conform_core c fs fm rq r fm' log :
   wf c -> root_is_dir c fs -> host_ok c -> fm_exact c fs fm ->
   decodable c rq ->
-  run_request c fs fm rq = ((r, fm'), log) ->
-  fm_exact c fs fm' /\ conforms r (spec_response c rq fs) = true.
+  run_request_core c fs fm rq = ((r, fm'), log) ->
+  fm_exact c fs fm' /\ conforms r (spec_response_core c rq fs) = true.
 Proof.
   intros Hwf Hroot Hhost Hfm Hmd H.
   assert (Hrej : forall k, (k = 1 \/ k = 2) -> ret (RExc k, fm) = ((r, fm'), log) ->
@@ -911,7 +911,7 @@ Proof.
   { intros Hn E. destruct (Hother Hn) as [s Hdec]. cbv iota.
     destruct (Hgiven s Hdec E) as [H1 H2]. split; [assumption|].
     destruct (forallb seg_ok (r_subpath rq)); exact H2. }
-  unfold run_request, route_prefix in H. unfold spec_response, spec_segments, spec_prefix.
+  unfold run_request_core, route_prefix in H. unfold spec_response_core, spec_segments, spec_prefix.
   (* goals that remain after the default mounting is solved: 0, 5, 6, 4, 2, 1 *)
   revert H Hdefault. unfold routed_mount.
   destruct (c_mount c) as [|[[q|[q|q|]|]|[[q|q|]|[q|q|]|]|]]; intros H Hdefault;
@@ -997,6 +997,46 @@ Proof.
     intros x. refine (eq_trans (f_equal (conforms r) (tail_or_404_eq c rq fs p0 _)) x).
 Qed.
 
+(* the virtual-root gate of the model is the gate of the specification *)
+Lemma vroot_gate_spec c :
+  vroot_gate c = match c_vroot c with
+                 | None => Datatypes.inr GPass
+                 | Some v => match decode v with
+                             | None => Datatypes.inl (RExc 2)
+                             | Some u => match split_path_info u with
+                                         | [] => Datatypes.inr GPass
+                                         | seg :: rest => Datatypes.inr (if empty_text (spec_view_name seg)
+                                                                         then GOverride rest else GNoView)
+                                         end
+                             end
+                 end.
+Proof.
+  unfold vroot_gate, spec_gate, vroot_tuple. destruct (c_vroot c) as [v|]; [|reflexivity].
+  destruct (decode v) as [u|]; [|reflexivity]. change (split_path_info_f u) with (split_path_info u).
+  destruct (split_path_info u) as [|seg rest]; [reflexivity|]. rewrite view_name_eq. reflexivity.
+Qed.
+
+Theorem request_conform c fs fm rq r fm' log :
+  wf c -> root_is_dir c fs -> host_ok c -> fm_exact c fs fm ->
+  decodable c rq ->
+  run_request c fs fm rq = ((r, fm'), log) ->
+  fm_exact c fs fm' /\ conforms r (spec_response c rq fs) = true.
+Proof.
+  intros Hwf Hroot Hhost Hfm Hmd H. unfold run_request in H. unfold spec_response.
+  destruct (routed_by_route (c_mount c)); [|eapply request_conform_core; eassumption].
+  destruct (decode (unquote (r_raw rq))) as [p0|]; [|eapply request_conform_core; eassumption].
+  rewrite vroot_gate_spec in H. unfold spec_gate. destruct (c_vroot c) as [v|]; [|eapply request_conform_core; eassumption].
+  destruct (decode v) as [u|].
+  2:{ unfold ret in H. injection H as <- <- _. split; [assumption|reflexivity]. }
+  destruct (split_path_info u) as [|seg rest]; [eapply request_conform_core; eassumption|].
+  destruct (empty_text (spec_view_name seg)).
+  - (* the bare selector: the specification is silent; the filemap stays exact *)
+    split; [|reflexivity]. destruct (route_matches c p0).
+    + destruct (serve_val _ _ _ _ _ _ _ _ _ Hfm H) as [Hx _]. exact Hx.
+    + unfold ret in H. injection H as _ <- _. assumption.
+  - unfold ret in H. injection H as <- <- _. split; [assumption|reflexivity].
+Qed.
+
 (* ------------------------------------------------------------ request sequences: conformance and filemap transparency *)
 Lemma run_requests_conform c fs rqs : forall fm,
   wf c -> root_is_dir c fs -> host_ok c -> fm_exact c fs fm -> Forall (decodable c) rqs ->
@@ -1030,12 +1070,12 @@ Proof.
   destruct (serve_val _ _ _ _ _ _ _ _ _ (fm_exact_nil c fs) E2) as [_ ->]. split; [reflexivity|assumption].
 Qed.
 
-Lemma run_request_indep c fs fm rq :
+Lemma run_request_core_indep c fs fm rq :
   fm_exact c fs fm ->
-  fst (fst (run_request c fs fm rq)) = fst (fst (run_request c fs [] rq)) /\
-  fm_exact c fs (snd (fst (run_request c fs fm rq))).
+  fst (fst (run_request_core c fs fm rq)) = fst (fst (run_request_core c fs [] rq)) /\
+  fm_exact c fs (snd (fst (run_request_core c fs fm rq))).
 Proof.
-  intros Hfm. unfold run_request, serve_path_info.
+  intros Hfm. unfold run_request_core, serve_path_info.
   destruct (c_mount c) as [|[[q|[q|q|]|]|[[q|q|]|[q|q|]|]|]]; try (apply serve_indep; assumption).
   - destruct (decode _); [|split; [reflexivity|assumption]].
     destruct (route_match _ _); [|split; [reflexivity|assumption]].
@@ -1055,6 +1095,19 @@ Proof.
   - destruct (decode _); [|split; [reflexivity|assumption]].
     destruct (route_match _ _); [|split; [reflexivity|assumption]].
     apply serve_indep; assumption.
+Qed.
+
+Lemma run_request_indep c fs fm rq :
+  fm_exact c fs fm ->
+  fst (fst (run_request c fs fm rq)) = fst (fst (run_request c fs [] rq)) /\
+  fm_exact c fs (snd (fst (run_request c fs fm rq))).
+Proof.
+  intros Hfm. unfold run_request.
+  destruct (routed_by_route _); [|apply run_request_core_indep; assumption].
+  destruct (decode _) as [p0|]; [|apply run_request_core_indep; assumption].
+  destruct (vroot_gate c) as [r|[| |t0]];
+    [split; [reflexivity|assumption]|apply run_request_core_indep; assumption|split; [reflexivity|assumption]|].
+  destruct (route_matches c p0); [apply serve_indep; assumption|split; [reflexivity|assumption]].
 Qed.
 
 Theorem filemap_transparent c fs rqs : forall fm,
@@ -1088,10 +1141,10 @@ Qed.
 Lemma not200_variant_ok c fs rq r : (forall b e v, r <> R200 b e v) -> variant_ok c fs rq r.
 Proof. intros H b e v E. exfalso. exact (H b e v E). Qed.
 
-Lemma run_request_variant_ok c fs fm rq :
-  fm_exact c fs fm -> variant_ok c fs rq (fst (fst (run_request c fs fm rq))).
+Lemma run_request_core_variant_ok c fs fm rq :
+  fm_exact c fs fm -> variant_ok c fs rq (fst (fst (run_request_core c fs fm rq))).
 Proof.
-  intros Hfm. unfold run_request, serve_path_info.
+  intros Hfm. unfold run_request_core, serve_path_info.
   assert (Hexc : forall k, variant_ok c fs rq (fst (fst (ret (RExc k, fm))))).
   { intros k. apply not200_variant_ok. intros b e v. discriminate. }
   assert (H404 : forall k, variant_ok c fs rq (fst (fst (ret (R404 k, fm))))).
@@ -1124,6 +1177,15 @@ Proof.
   - apply Hvt.
   - destruct (decode _); [|apply Hexc]. destruct (route_match _ _); [|apply H404].
     apply serve_variant_ok; assumption.
+Qed.
+
+Lemma run_request_variant_ok c fs fm rq :
+  fm_exact c fs fm -> variant_ok c fs rq (fst (fst (run_request c fs fm rq))).
+Proof.
+  intros Hfm. destruct (run_request_cases c fs fm rq) as [E|[(r0 & E & Hr)|(t & E)]]; rewrite E.
+  - apply run_request_core_variant_ok. assumption.
+  - apply not200_variant_ok. intros b e v. cbn [ret fst]. destruct Hr as [-> | ->]; discriminate.
+  - apply serve_variant_ok. assumption.
 Qed.
 
 (* every 200 answer of a request sequence handled by one view instance -- whatever the filemap holds from earlier
@@ -1239,11 +1301,11 @@ Proof.
     injection H as <- <- <-. split; [reflexivity|assumption].
 Qed.
 
-Lemma run_request_contained_g c fs fm rq r fm' log :
+Lemma run_request_core_contained_g c fs fm rq r fm' log :
   wf c -> root_is_dir c fs -> fm_ok c fm ->
-  run_request c fs fm rq = ((r, fm'), log) -> contained c log = true /\ fm_ok c fm'.
+  run_request_core c fs fm rq = ((r, fm'), log) -> contained c log = true /\ fm_ok c fm'.
 Proof.
-  intros Hwf Hroot Hfm H. unfold run_request, serve_path_info in H.
+  intros Hwf Hroot Hfm H. unfold run_request_core, serve_path_info in H.
   assert (Hret : forall r0, ret (r0, fm) = ((r, fm'), log) -> contained c log = true /\ fm_ok c fm').
   { intros r0 E. unfold ret in E. injection E as <- <- <-. split; [reflexivity|assumption]. }
   destruct (c_mount c) as [|[[q|[q|q|]|]|[[q|q|]|[q|q|]|]|]]; try (eapply serve_contained_g; eassumption).
@@ -1265,6 +1327,16 @@ Proof.
   - destruct (decode (unquote (r_raw rq))) as [p0|]; [|eapply Hret; eassumption].
     destruct (route_match _ _) as [rest|]; [|eapply Hret; eassumption].
     eapply serve_contained_g; eassumption.
+Qed.
+
+Lemma run_request_contained_g c fs fm rq r fm' log :
+  wf c -> root_is_dir c fs -> fm_ok c fm ->
+  run_request c fs fm rq = ((r, fm'), log) -> contained c log = true /\ fm_ok c fm'.
+Proof.
+  intros Hwf Hroot Hfm H. destruct (run_request_cases c fs fm rq) as [E|[(r0 & E & _)|(t & E)]]; rewrite E in H.
+  - eapply run_request_core_contained_g; eassumption.
+  - unfold ret in H. injection H as <- <- <-. split; [reflexivity|assumption].
+  - eapply serve_contained_g; eassumption.
 Qed.
 
 Lemma run_requests_contained_g c fs rqs : forall fm,
@@ -1493,6 +1565,23 @@ Example placeholder_traversal_nonvacuous :
   run_model (ex_cfg 4 [47; 114]) ex_fs [rq [47; 115; 47; 102; 37; 48; 65]] = [(R404 0, [])] /\
   run_model (ex_cfg 5 [47; 114]) ex_fs [rq [47; 120; 47; 102]] = [(R404 0, [])].
 Proof. repeat split; try eexists; vm_compute; reflexivity. Qed.
+
+(* a virtual root on the route-mounted view: "/x" names a view that does not exist (404, no file access), "/@@" names
+   the empty view (served as without the header), an undecodable header is a decoding error *)
+Example vroot_routed_nonvacuous :
+  let c v := mkConfig 1 [115] false [47; 114] [] [105] [[103]] [([46; 103], [103])] [104] [47] false (Some v) in
+  let rq := mkReq [47; 102] [] [] true [[103]] in
+  run_model (c [47; 120]) ex_fs [rq] = [(R404 0, [])] /\
+  run_model (c [255]) ex_fs [rq] = [(RExc 2, [])] /\
+  spec_response (c [47; 120]) rq ex_fs = S404 /\ spec_response (c [255]) rq ex_fs = SReject /\
+  (* the bare selector followed by "x": request.subpath is ("x",) whatever the URL says -- 404 here, nothing outside *)
+  (exists l, run_model (c [47; 64; 64; 47; 120]) ex_fs [rq] = [(R404 2, l)] /\ contained (c [47; 64; 64; 47; 120]) l = true) /\
+  spec_response (c [47; 64; 64]) rq ex_fs = SUnspec.
+Proof.
+  cbv zeta. split; [vm_compute; reflexivity|]. split; [vm_compute; reflexivity|].
+  split; [vm_compute; reflexivity|]. split; [vm_compute; reflexivity|].
+  split; [eexists; split; vm_compute; reflexivity|vm_compute; reflexivity].
+Qed.
 
 Lemma facts_ok2 : filemap_per_instance = true.
 Proof. reflexivity. Qed.
